@@ -129,12 +129,16 @@ def _dispatch_job(job):
 
 # ---- (2) timeout / retry ---------------------------------------------------------------------------
 def _retry_job(job):
-    T, N, k, delta = job  # reply leaves `delta` s after the (k+1)-th transmission (k = 0..N), or k = None: never
+    T, N, k, delta = job[:4]  # reply leaves `delta` s after the (k+1)-th transmission (k = 0..N), or k = None: never
+    backlog = job[4] if len(job) > 4 else 0  # other datagrams already waiting in the send queue (20 ms each)
     lib.reset_library()
     sock = GeckoUdpSocket()
     w, e = _engine(sock)
     sock.add_receive_handler(GeckoPacketProtocolHandler(socket=sock))
     parms = (PEER[0], PEER[1], SPA_ID, b"IOSx")
+    with stepped.patched_clock(w.clock):
+        for i in range(backlog):
+            sock.queue_send(GeckoPacketProtocolHandler(content=b"BACKL" + bytes([i]), parms=parms), parms)
     state = {"tx": 0, "answered": False}
     orig_send = w.net.send
 
@@ -158,7 +162,8 @@ def _retry_job(job):
         h._reset_timeout()
         sock.add_receive_handler(h)
         sock.queue_send(h, parms)
-    t_end = w.now() + (N + 2) * (T + 0.2) + 2.0
+    t_created = w.now()
+    t_end = w.now() + (N + 2) * (T + 0.2) + 2.0 + backlog * 0.05
     removed_at = None
     tx_at_removal = None
     handled_at = None
@@ -174,7 +179,8 @@ def _retry_job(job):
             tx_at_removal = tx
     tx = sum(1 for (t, d, dest) in e.mock.sent if b"AVERS" in d)
     why = None
-    case = f"T={T} N={N} reply={'never' if k is None else f'{delta}s after transmission {k+1}'}"
+    case = f"T={T} N={N} reply={'never' if k is None else f'{delta}s after transmission {k+1}'}" + (
+        f" behind {backlog} queued datagrams" if backlog else "")
     if h in sock._receive_handlers:
         why = ("not-removed", f"{case}: handler still registered at the end")
     elif tx > 1 + N:
@@ -190,6 +196,10 @@ def _retry_job(job):
         why = ("after-removal", f"{case}: transmitted after the handler was removed")
     elif lib.LOG.records:
         why = ("engine", f"errors: {lib.LOG.records[:2]}")
+    first_tx = [t for (t, d, dest) in e.mock.sent if b"AVERS" in d][:1]
+    if why and backlog and (not first_tx or first_tx[0] - t_created >= T):
+        # the request's time-out elapsed while it was still waiting for its FIRST transmission
+        why = ("timed-out-before-first-transmission", why[1] + f" [{why[0]}]")
     return why
 
 
@@ -427,6 +437,8 @@ def run(ctx):
             for d in ((0.002, 0.02, 0.045, 0.06) if k is not None else (0.0,))]
     # longer budgets, unanswered or answered late in the budget (time-outs shorter than / comparable with a throttle slot)
     jobs += [(T, N, k, 0.002) for T in (0.005, 0.01, 0.02, 0.03, 0.05) for N in (4, 5, 6, 8) for k in (None, N - 1, N)]
+    # the request waits behind a send backlog (shorter and longer than its time-out)
+    jobs += [(T, N, k, 0.002, B) for T in (0.03, 0.05, 1.0) for N in (1, 2) for k in (None, N) for B in (1, 3, 10)]
     for why, job in zip(core.pmap(ctx, _retry_job, jobs, chunksize=1), jobs):
         trans += 1
         states.add(("retry", job))
